@@ -311,6 +311,11 @@ func (p *Pool) Get() interface{} {
 	}
 	rt.Point(rt.OpPoolGet, &p.obj, nil)
 	if n := len(p.items); n > 0 {
+		// a real pool may also hand out a fresh object although it holds one (per-P caches, a GC in between): where
+		// the scenario asks for it, that is a data choice of the exploration (0: the pooled object, 1: a new one)
+		if rt.PoolMayMiss() && p.New != nil && rt.Choose(2) == 1 {
+			return p.New()
+		}
 		x := p.items[n-1]
 		p.items[n-1] = nil
 		p.items = p.items[:n-1]
